@@ -42,7 +42,7 @@ def run_job(job):
             return h(params, **kw)
 
         res = xh.explore(fn, sig, budget_s=float(job.get("budget", 60)),
-                         per_path_timeout=float(job.get("per_path_timeout", 30)),
+                         per_path_timeout=float(job.get("per_path_timeout", max(30.0, float(job.get("budget", 60)) * 0.6))),
                          max_paths=int(job.get("max_paths", 10**9)))
         for c in res["counterexamples"]:
             c["harness"] = job["harness"]
@@ -65,8 +65,8 @@ def run_job(job):
                     if _label == "end":
                         raise AssertionError("reached end")
 
-                r2 = xh.explore(twin, sig, budget_s=max(10.0, float(job.get("budget", 60)) / 3),
-                                per_path_timeout=float(job.get("per_path_timeout", 30)))
+                r2 = xh.explore(twin, sig, budget_s=max(10.0, float(job.get("budget", 60)) * 0.7),
+                                per_path_timeout=float(job.get("per_path_timeout", max(30.0, float(job.get("budget", 60)) * 0.6))))
                 ok = r2["verdict"] == "counterexample"
                 twins[label] = jsonx.enc(r2["counterexamples"][0]["args"]) if ok else None
                 res["stats"]["paths"] += r2["stats"]["paths"]
